@@ -33,9 +33,12 @@ CLAIMED = {
          "Session.tla composes the solver specification with the solve command's file handling and is model-checked over every prompt index and kind of interruption on generated programs; the real command is run in-process with a scripted keyboard and interrupted at every prompt index (generated programs) and sampled indices (real returns) by Ctrl-C and end of input, other sessions end in unsupported forms, failing lines or invalid file text; file before/after and the follow-up run are judged by TLC.", "6/C20"),
  "C19": ("exploration", "TLC decodes the real form-data (FDF) output with PdfString.tla (PDF literal-string syntax) and evaluates Fill.tla on the stand-in pdftk's recorded argv",
          "All strings up to length 4 (thorough 5) over an adversarial alphabet go through the real _create_fdf as values and as names and are decoded back by TLC; every solved explored return (a third with adversarial text) goes through the real fill_pdfs with a recording stand-in for pdftk and Fill.tla requires: exactly the forms needing filing, once each, ordered by jurisdiction/sequence, no worksheet or input-only form, every FDF value equal to the mapped text, and an error instead of an over-long or out-of-list value.", "6/C19"),
+ "C14": ("exploration", "TLC evaluates RoundTrip.tla on every value sent through solution() -> ConfigParser file -> the real fill-pdfs loading path (stand-in pdftk)",
+         "Every stored line of every explored real solution (complete or partial) and of a synthetic form covering all line types, decimal places, magnitudes, text shapes and enumeration members is written like the solve command does, read back by the real fill-pdfs code with the stamped year's form definitions, and compared by TLC: numbers/booleans exactly (binary-exact floats), enumerations by member, blank as blank, text up to surrounding whitespace; stamped year = solved year = interpreting year.", "6/C14"),
 }
 
 NOTES = {
+ "C14": "text containing '%' is not generated (configparser interpolation makes the program abort, which is an error exit, not a wrong value); explored solutions are seeded samples",
  "C19": "pdftk itself is absent: verified is everything up to the bytes and argv handed to it; box lengths / choice lists are the mapping's own (compared with the templates by C18); printable ASCII",
  "C20": "real sessions are in-process calls of habutax.solve() with builtins.input replaced; file contents compared up to surrounding whitespace; quick tier samples every 9th prompt index on real returns",
  "C09": "the gate catalogue data/gates.json is a frozen, reviewed list (freshness against the current tree is reported in the thorough tier's evidence, never as a violation); gates whose input no explored return reads are listed in the evidence as gates_never_read",
